@@ -1,7 +1,7 @@
 """C02 - closed-system conservation of elements and charge in reaction steps (batch, MIX, RUN_CELLS, histories)."""
 import os, math
 from hypothesis import strategies as st
-from .. import lib, cellgen as G, rawparse as R, inv_util as U, formula as F
+from .. import lib, cellgen as G, rawparse as R, inv_util as U, formula as F, dbparse
 from ..core import Violation, Discard
 
 ID = "C02"
@@ -31,7 +31,11 @@ DBS = {"quick": ("phreeqc.dat", "phreeqc.dat", "phreeqc.dat", "wateq4f.dat", "pi
        "thorough": ("phreeqc.dat", "phreeqc.dat", "wateq4f.dat", "pitzer.dat")}
 
 RTOL = 1e-6
-FLOOR = 1e-30
+# Near-zero rule (DESIGN 4.3): the relative tolerance is applied to max(system inventory, FLOOR).  The engine represents
+# "absent" by tiny positive amounts (MIN_TOTAL = 1e-25 mol, 1e-27 mol for solid-solution components), so an element that
+# is not in the system may show up with ~1e-27 mol after a step.  FLOOR = 1e-14 mol gives an absolute slack of 1e-20 mol,
+# eight orders below 1e-6 of the smallest amount the generator can produce (1e-6 mol/kgw x 0.1 kg).
+FLOOR = 1e-14
 MOVED = 1e-9
 
 
@@ -40,6 +44,14 @@ def prepare(tier):
 
 
 _phase_cache = {}
+_gfw_cache = {}
+
+
+def water_gfw(db):
+    """g/mol of H2O from the element weights written in the database text"""
+    if db not in _gfw_cache:
+        _gfw_cache[db] = dbparse.load(db).formula_weight("H2O")
+    return _gfw_cache[db]
 
 
 def phases_for(db):
@@ -61,13 +73,24 @@ def per_entity(D, keys, phases):
     return out
 
 
-def check_step(info, D0, D1, phases):
+def check_step(info, D0, D1, phases, gfw_h2o=18.016):
     """-> dict(moved=bool, classes=[...]); raises Violation"""
     bkeys = [(k, n) for k, n, w in info["before"]]
     wts = {(k, n): w for k, n, w in info["before"]}
     akeys = [(k, n) for k, n in info["after"]]
     B = per_entity(D0, bkeys, phases)
     A = per_entity(D1, akeys, phases)
+    # a never-used SURFACE definition with an explicit constant-thickness diffuse layer owns W_s = area x thickness of
+    # water (manual eq. 76) that its dump does not list yet (-mass_water 0): part of the inventory before the step
+    dlw = 0.0
+    for k in bkeys:
+        if k[0] == "SURFACE":
+            w = R.implied_dl_water(D0[k])
+            if w > 0:
+                dlw += w
+                els = B[k][0]
+                els["H"] = els.get("H", 0.0) + 2.0 * w * 1000.0 / gfw_h2o
+                els["O"] = els.get("O", 0.0) + w * 1000.0 / gfw_h2o
     before, scale, bz, zscale = {}, {}, 0.0, 0.0
     for k, (els, z, am) in B.items():
         w = wts[k]
@@ -138,6 +161,8 @@ def check_step(info, D0, D1, phases):
                     if v0 == 0 and v > 0:
                         appeared = True
     cls = []
+    if dlw > 0:
+        cls.append("dl_water_implied")
     if exhausted:
         cls.append("reactant_exhausted")
     if appeared:
@@ -179,10 +204,11 @@ def run_case(case, ctx, punch=None, on_step=None):
 
 def check_case(case, ctx):
     phases = phases_for(case["db"]) if case["db"] in G.DB else None
+    gfw = water_gfw(case["db"]) if case["db"] in G.DB else None
     res = []
 
     def on_step(k, info, D0, D1, I):
-        r = check_step(info, D0, D1, phases)
+        r = check_step(info, D0, D1, phases, gfw)
         r["kinds"] = info["kinds"]
         res.append(r)
 
